@@ -194,6 +194,22 @@ func orderSensitive(p *an.Prog, region []*ssa.BasicBlock, iterated ssa.Value) []
 				// which element is named in the message may); leaving with a result does.
 				n := len(x.Results)
 				if n > 0 && errorLike(x.Results[n-1].Type()) && !an.IsNilConst(x.Results[n-1]) {
+					// a fixed error (a package-level sentinel) is the same whichever entry fails first; an error
+					// built here names the entry, and which entry fails first depends on the order
+					fixed := true
+					for _, o := range an.Origins(x.Results[n-1], an.StepValue) {
+						u, isLoad := o.(*ssa.UnOp)
+						if !isLoad {
+							fixed = false
+							continue
+						}
+						if _, isG := u.X.(*ssa.Global); !isG {
+							fixed = false
+						}
+					}
+					if !fixed {
+						why = append(why, "returns an error built inside the loop (it names whichever entry fails first) at "+p.Pos(an.InstrPos(in)))
+					}
 					continue
 				}
 				why = append(why, "returns a result from inside the loop at "+p.Pos(an.InstrPos(in)))
@@ -332,7 +348,11 @@ func runD1(p *an.Prog, r *an.Result) {
 				r.Counts["map iteration sites"]++
 				construct := cn + "()"
 				if cn == "(reflect.Value).MapRange" {
-					r.Bad(name, construct, x.Pos(), "MapRange iterates in Go's randomised order; the rule knows no order-insensitive idiom for it")
+					if mapRangeCollectedAndSorted(fn, x) {
+						r.OK(name, construct, x.Pos(), "the pairs are only collected into a slice, and that slice is sorted before any other use")
+						return
+					}
+					r.Bad(name, construct, x.Pos(), "MapRange iterates in Go's randomised order, and the pairs are not merely collected into a slice that is sorted at once")
 					return
 				}
 				if ok, _ := sortedBeforeUse(x, nil); ok {
@@ -537,4 +557,107 @@ func addrStepLocal(v ssa.Value) []ssa.Value {
 		return []ssa.Value{x.X}
 	}
 	return nil
+}
+
+// mapRangeCollectedAndSorted: the iterator's Key() and Value() results flow only into elements appended to
+// one slice (directly or as fields of a struct literal), and that slice is handed to a sort call that
+// dominates every return of the function.
+func mapRangeCollectedAndSorted(fn *ssa.Function, it *ssa.Call) bool {
+	var parts []ssa.Value
+	if it.Referrers() == nil {
+		return false
+	}
+	for _, u := range *it.Referrers() {
+		c, ok := u.(*ssa.Call)
+		if !ok {
+			if _, dbg := u.(*ssa.DebugRef); dbg {
+				continue
+			}
+			return false
+		}
+		switch an.CallName(&c.Call) {
+		case "(*reflect.MapIter).Next":
+		case "(*reflect.MapIter).Key", "(*reflect.MapIter).Value":
+			parts = append(parts, c)
+		default:
+			return false
+		}
+	}
+	if len(parts) == 0 {
+		return false
+	}
+	// every part ends in an append
+	var appends []*ssa.Call
+	seen := map[ssa.Value]bool{}
+	okFlow := true
+	var follow func(v ssa.Value, depth int)
+	follow = func(v ssa.Value, depth int) {
+		if seen[v] || depth > 8 || v.Referrers() == nil {
+			return
+		}
+		seen[v] = true
+		for _, u := range *v.Referrers() {
+			switch y := u.(type) {
+			case *ssa.DebugRef:
+			case *ssa.Store:
+				// into a field / element of a local literal: follow the literal
+				base := y.Addr
+				for {
+					switch b := base.(type) {
+					case *ssa.FieldAddr:
+						base = b.X
+						continue
+					case *ssa.IndexAddr:
+						base = b.X
+						continue
+					}
+					break
+				}
+				if al, isAl := base.(*ssa.Alloc); isAl {
+					follow(al, depth+1)
+				} else {
+					okFlow = false
+				}
+			case *ssa.UnOp, *ssa.MakeInterface, *ssa.Slice, *ssa.Phi, *ssa.FieldAddr, *ssa.IndexAddr:
+				follow(y.(ssa.Value), depth+1)
+			case *ssa.Call:
+				if b, isB := y.Call.Value.(*ssa.Builtin); isB && b.Name() == "append" {
+					appends = append(appends, y)
+					continue
+				}
+				okFlow = false
+			default:
+				okFlow = false
+			}
+		}
+	}
+	for _, pv := range parts {
+		follow(pv, 0)
+	}
+	if !okFlow || len(appends) == 0 {
+		return false
+	}
+	// the accumulated slice is sorted
+	var sortCall *ssa.Call
+	an.EachInstr(fn, func(in ssa.Instruction) {
+		c, ok := in.(*ssa.Call)
+		if !ok || !isSortCall(an.CallName(&c.Call)) || len(c.Call.Args) == 0 {
+			return
+		}
+		for _, ap := range appends {
+			if an.Reaches(c.Call.Args[0], an.StepValue, func(v ssa.Value) bool { return v == ssa.Value(ap) }) {
+				sortCall = c
+			}
+		}
+	})
+	if sortCall == nil {
+		return false
+	}
+	okRet := true
+	an.EachInstr(fn, func(in ssa.Instruction) {
+		if ret, ok := in.(*ssa.Return); ok && !instrDominates(sortCall, ret) {
+			okRet = false
+		}
+	})
+	return okRet
 }
